@@ -116,7 +116,7 @@ def byte_case(part, ia32, b, meta, seen_prefix):
                 part.violation('entry=stream kind=offsets %s' % site,
                                'after dis(bin_stream(.., %d)): instr.offset=%r stream.offset=%r (length %d)' % (pad, j.offset, st.offset, l), wit)
                 return
-    part.ok(core.h64(b), outcome=core.h64(texts[0].split()[0]))
+    part.ok(core.h64(b), outcome=core.h64(texts[0].split()[0]), sample={'bytes': b[:l].hex(), 'intel': texts[0].strip(), 'truncations_checked': l} if len(part.samples) < 2 else None)
     part.counters['distinct_instructions_truncated'] += 1
 
 
@@ -174,7 +174,7 @@ def text_case(part, ia32, line, entry):
         part.n += 1
         part.violation('entry=%s kind=result-type' % entry, '%s(%r) returns %r' % (entry, line, r), {'line': line, 'entry': entry})
         return
-    part.ok(core.h64((entry, line)), outcome=('list', min(len(r), 3)))
+    part.ok(core.h64((entry, line)), outcome=('list', min(len(r), 3)), sample={'entry': entry, 'line': line, 'candidates': len(r)} if len(part.samples) < 4 and r else None)
 
 
 def text_space(tier):
@@ -221,7 +221,6 @@ def run(tier, seed):
     part.counters['byte_cases'] = part.n
     part.counters['text_cases'] = pt.n
     part.merge(pt)
-    part.samples = [{'bytes': '8c f0 (mov with segment field 6)'}, {'line': 'mov eax , st(9)', 'entry': 'asm'}] + part.samples[:3]
     rule = ('bytes: every string of S_x86 without any filter (all 256 opcode values per map incl. prefix/escape bytes; %d work units x all ModRM x '
             'SIB classes): dis returns None or an instruction whose length is within the input, whose raw bytes are the consumed prefix and which renders in '
             'both syntaxes; for every distinct decoded instruction: dis of exactly the consumed bytes gives the same result, dis of every shorter '
